@@ -1,3 +1,4 @@
+import Copia.Driver.C01
 import Copia.Driver.C17
 import Copia.Driver.C18
 import Copia.Driver.C19
@@ -11,6 +12,7 @@ def dispatch (line : String) : String :=
   let toks := (line.trimAscii.toString.splitOn " ").filter (· ≠ "")
   let r : Option String :=
     match toks with
+    | "sig" :: _ | "delta" :: _ | "patch" :: _ => C01.handle toks
     | "ck" :: _ => C17.handle toks
     | "glob" :: _ | "excl" :: _ | "plan" :: _ | "nt" :: _ | "parse" :: _ => C19.handle toks
     | "rp" :: _ | "rec" :: _ => C18.handle toks
